@@ -108,7 +108,18 @@ func blobOf(ex *Exec, data *SliceVal) (blob, bool) {
 	if !ok || t0.Op != OpVar || !strings.HasPrefix(t0.Name, "jsonblob!") || !strings.HasSuffix(t0.Name, "!0") {
 		return blob{}, false
 	}
-	if data.Len != 2 {
+	if data.Len < 2 {
+		return blob{}, false
+	}
+	// JSON text may be followed by white space (status files end with a newline)
+	for i := 2; i < data.Len; i++ {
+		b, ok := data.Arr.Elem(data.Off + i).V.(*Term)
+		if !ok || !b.IsConst() || !(b.BV == '\n' || b.BV == ' ' || b.BV == '\t' || b.BV == '\r') {
+			return blob{}, false
+		}
+	}
+	t1, ok := data.Arr.Elem(data.Off + 1).V.(*Term)
+	if !ok || t1.Op != OpVar || t1.Name != strings.TrimSuffix(t0.Name, "!0")+"!1" {
 		return blob{}, false
 	}
 	id := strings.TrimSuffix(strings.TrimPrefix(t0.Name, "jsonblob!"), "!0")
